@@ -46,6 +46,7 @@ namespace vs
         std::atomic<bool> steering{ false };
         // caller phase for the monitor
         std::atomic<long long> call_started_ms{ 0 };  // 0 = not inside a pool call
+        std::atomic<unsigned long> call_start_seq{ 0 };  // event counter when that call began
         std::atomic<int> call_kind{ 0 };
         void reset()
         {
@@ -173,6 +174,12 @@ namespace vs
             sample(s2);
             int cp = s2.lp[0];
             bool caller_spins = (cp == fsv::wait_spin || cp == fsv::pause_spin) && s1.lp[0] == cp && s1.chg[0] == s2.chg[0] && s2.seq[0] != s1.seq[0];
+            // ... or it is blocked in join() (stop / resize / destruction): no event in the window
+            // (the passage of "before join" must belong to THIS call: a caller that is slow somewhere
+            // else - e.g. creating the threads of the next pool on a loaded machine - still shows
+            // the join of an earlier call as its last schedule point; met as a false alarm)
+            bool caller_joins = cp == fsv::stop_before_join && s1.lp[0] == cp && s1.seq[0] == s2.seq[0] && s2.seq[0] >= g_tr.call_start_seq.load(std::memory_order_relaxed)
+                                && g_tr.count[0][fsv::stop_before_join].load(std::memory_order_relaxed) > 0;
             int waiting_workers = 0, first_waiting = -1, idle_workers = 0;
             bool all_classified = true;
             for (int t = 1; t < NTHREADS; ++t)
@@ -191,23 +198,34 @@ namespace vs
                 else
                     all_classified = false;
             }
-            // wait(): a set flag must belong to a blocked worker (the lost wake-up) - with none the
-            // state would contradict the tracked events, nothing is concluded then
-            bool stuck = caller_spins && all_classified && g_tr.call_started_ms.load(std::memory_order_relaxed) == t0
-                         && (cp == fsv::wait_spin ? waiting_workers > 0 : idle_workers > 0);
+            // wait(): a set flag belongs to a blocked worker (the lost wake-up) or to a worker that is
+            // gone - idle workers saw theirs clear.  join(): m_stopped was set before, so an idle worker
+            // that keeps looping has not been told to stop and a blocked one will not be notified.
+            bool stuck = all_classified && g_tr.call_started_ms.load(std::memory_order_relaxed) == t0
+                         && ((caller_spins && (cp == fsv::wait_spin || idle_workers > 0)) || (caller_joins && waiting_workers + idle_workers > 0));
             char buf[700];
             if (stuck)
             {
                 int len;
-                if (cp == fsv::wait_spin)
+                if (cp == fsv::wait_spin && waiting_workers > 0)
                     len = snprintf(buf, sizeof buf,
                                    "\nPOOL-STUCK: caller has been inside one pool call for %lld ms and spins in wait(); worker %d (and %d in total) "
                                    "is blocked in the condition-variable wait of its pause job with its job flag still set; every other worker is idle; nobody else notifies -> no progress possible (lost wake-up)\n",
                                    dt, first_waiting, waiting_workers);
-                else
+                else if (cp == fsv::wait_spin)
+                    len = snprintf(buf, sizeof buf,
+                                   "\nPOOL-STUCK: caller has been inside one pool call for %lld ms and spins in wait() on a job flag that no live worker will clear "
+                                   "(%d idle worker(s) saw their own flag clear, the others are gone) -> no progress possible (job handed to nobody)\n",
+                                   dt, idle_workers);
+                else if (cp == fsv::pause_spin)
                     len = snprintf(buf, sizeof buf,
                                    "\nPOOL-STUCK: caller has been inside one pool call for %lld ms and spins in pause() waiting for every worker to be counted as paused; "
                                    "%d worker(s) sit in the condition-variable wait, %d worker(s) are idle in their loop with no job (they will never be counted), nobody can change the count -> no progress possible\n",
+                                   dt, waiting_workers, idle_workers);
+                else
+                    len = snprintf(buf, sizeof buf,
+                                   "\nPOOL-STUCK: caller has been blocked in join() for %lld ms; %d worker(s) sit in the condition-variable wait of a pause job (nobody notifies), "
+                                   "%d worker(s) keep looping without having been told to stop -> no progress possible (join never returns)\n",
                                    dt, waiting_workers, idle_workers);
                 ssize_t w = write(2, buf, static_cast<size_t>(len));
                 (void) w;
@@ -240,6 +258,7 @@ namespace vs
         CallScope(int kind)
         {
             g_tr.call_kind.store(kind, std::memory_order_relaxed);
+            g_tr.call_start_seq.store(g_tr.seq.load(std::memory_order_relaxed), std::memory_order_relaxed);
             g_tr.call_started_ms.store(now_ms(), std::memory_order_relaxed);
         }
         ~CallScope()
